@@ -255,6 +255,8 @@ class Value(cssutils.util._NewBase):
         if cssText:
             self.cssText = cssText
 
+        self._readonly = readonly
+
     def __repr__(self):
         return f"cssutils.css.{self.__class__.__name__}({self.cssText!r})"
 
@@ -296,6 +298,7 @@ class Value(cssutils.util._NewBase):
 
     def _setValue(self, value):
         # TODO: check!
+        self._checkReadonly()
         self._value = value
 
     value = property(
